@@ -167,13 +167,9 @@ inductive FracOK : Frac → Prop
       (h : persist? (FracInfo.sealed consts ct (bulks.map (·.map Prod.fst))) = some info) :
       FracOK ⟨info, bulks.flatten⟩
 
-theorem mem_flatten_map_fst {bulks : List (List (Nat × Nat))} {id : Nat × Nat} (h : id ∈ bulks.flatten) :
-    id.1 ∈ (bulks.map (·.map Prod.fst)).flatten := by
-  rw [List.mem_flatten] at h ⊢
-  rcases h with ⟨b, hb, hid⟩
-  exact ⟨b.map Prod.fst, List.mem_map_of_mem hb, List.mem_map_of_mem hid⟩
-
-theorem sound_of_ok {f : Frac} (h : FracOK f) : Sound f := by
+/-- every fraction whose info was produced by the modelled life cycle never rejects a range that holds one of its
+documents -/
+theorem c14_fracOK_sound {f : Frac} (h : FracOK f) : Sound f := by
   intro id hid qf qt h1 h2 hqt
   cases h with
   | active ct bulks => exact c14_info_sound_active ct _ id.1 qf qt (mem_flatten_map_fst hid) h1 h2
@@ -190,7 +186,7 @@ document of every fraction finds (same documents, same order). -/
 theorem c14_pruned_eq_unpruned (fs : List Frac) (hok : ∀ f, f ∈ fs → FracOK f) (qf qt : Nat)
     (hqt : qt < 18446744073709551616) :
     scanPruned fs qf qt = scanAll fs qf qt :=
-  scanPruned_eq (fun f hf => sound_of_ok (hok f hf)) hqt
+  scanPruned_eq (fun f hf => c14_fracOK_sound (hok f hf)) hqt
 
 /-- **C14, fetch path.**  Every fraction that holds a requested ID survives both filters of `groupIDsByFraction`
 (`FilterInRange(minMID, maxMID)` over the request, then `Contains(id.MID)`), whatever other IDs the request
@@ -201,7 +197,7 @@ theorem c14_fetch_candidates (fs : List Frac) (hok : ∀ f, f ∈ fs → FracOK 
   unfold holders at hf
   rw [List.mem_filter] at hf
   have hid : id ∈ f.docs := by simpa using hf.2
-  have hsound := sound_of_ok (hok f hf.1)
+  have hsound := c14_fracOK_sound (hok f hf.1)
   unfold candidates filterInRange contains
   rw [List.mem_filter, List.mem_filter]
   exact ⟨⟨hf.1, hsound id hid minMID maxMID h1 h2 hmax⟩,
@@ -225,7 +221,7 @@ theorem c14_narrowed_pruned_eq_unpruned (fs : List TFrac)
   simp only [TFrac.toFrac] at hid ⊢
   rcases List.mem_map.1 hid with ⟨x, hx, rfl⟩
   rw [← hinfo]
-  exact sound_of_ok hg (x.mid, x.rid) (hsub x hx) a b h1 h2 hb
+  exact c14_fracOK_sound hg (x.mid, x.rid) (hsub x hx) a b h1 h2 hb
 
 /-- non-vacuity: the hypotheses hold for a sealed fraction with a distribution and its table in LID order, and
 the theorem then gives the concrete answer -/
